@@ -1078,6 +1078,13 @@ writefd(const char *dir)
 		warn("mkstemp");
 		return -1;
 	}
+	/* Do not leak the file descriptor to executed commands. */
+	if (fcntl(fd, F_SETFD, FD_CLOEXEC) == -1) {
+		warn("fcntl");
+		(void)unlink(path);
+		close(fd);
+		return -1;
+	}
 	if (unlink(path) == -1) {
 		warn("unlink: %s", path);
 		close(fd);
